@@ -638,6 +638,40 @@ def b2(repo: Repo) -> RuleResult:
     except Inconclusive as e:
         res.unsure(f"B2: newline position: {e}")
 
+    # (j) every file is lexed by a lexer of its own: ply's lexer.input() keeps lineno, so a parser / lexer that
+    # is used for a second file goes on counting where the first file ended
+    try:
+        from .flows import compiler_flow as _cfj
+        from .normal import V as _Vj
+        from .normal import show as _shj
+        from .pyflow import single_atom as _saj
+
+        flj = _cfj(repo, "Parser", "parser.py", inline=lambda n_, f_: n_.startswith("_"), module_funcs=True)
+        pcj = flj.methods.get("parse_child")
+        if pcj is None:
+            res.unsure("B2: Parser.parse_child vanished")
+        else:
+            prm_j = [a_.arg for a_ in pcj.args.args]
+            env_j = {prm_j[0]: _Vj("self")}
+            for a_ in prm_j[1:]:
+                env_j[a_] = _Vj(a_)
+            n_parse = 0
+            for p_ in flj.run(pcj, env_j):
+                for e in p_.effects:
+                    if e.kind == "call" and e.name in ("parse", "parse_string") and e.recv is not None:
+                        n_parse += 1
+                        ra = _saj(e.recv)
+                        fresh = ra is not None and ra[0] in ("new", "call") and (ra[1] == "Parser" or str(ra[1]).endswith("Parser"))
+                        res.inst(part="fresh-lexer", receiver=_shj(e.recv)[:60], fresh=fresh)
+                        if not fresh and ra is not None and ra[0] == "var" and ra[1].startswith("self."):
+                            res.bad(Finding("B2", PARSER, pcj.lineno, "Parser.parse_child", _shj(e.recv), f"an imported file is parsed by the stored parser `{_shj(e.recv)}`, not by a parser (and lexer) constructed for it: ply's lexer.input() does not reset the line counter, so the second file parsed by it is cited with line numbers continuing from the first", witness="two imports in one file, an error on line 7 of the second imported file is cited as L18", tag="parse_child:reused-parser"))
+                        elif not fresh:
+                            res.unsure(f"B2: parse_child: receiver `{_shj(e.recv)}` of parse() not recognised")
+            if n_parse == 0:
+                res.unsure("B2: parse_child does not call parse()")
+    except Inconclusive as e:
+        res.unsure(f"B2: fresh lexer: {e}")
+
     # (i) column arithmetic: the column recorded for symbol k is its offset from the last newline in
     # front of it, 1-based on every line - also on the first one, where there is no newline to find
     try:
